@@ -79,6 +79,7 @@ type T struct {
 	varsOK  bool
 	defined bool // printed as define-fun in solver generation gen
 	gen     uint32
+	ufState uint8
 }
 
 type tkey struct {
@@ -91,13 +92,14 @@ type tkey struct {
 
 // Ctx owns the hash-cons table. Not safe for concurrent use.
 type Ctx struct {
-	tab    map[tkey]*T
-	next   uint32
-	True   *T
-	False  *T
-	small  [4][256]*T
-	nvars  int
-	AllVar []*T
+	tab      map[tkey]*T
+	next     uint32
+	True     *T
+	False    *T
+	small    [4][256]*T
+	nvars    int
+	AllVar   []*T
+	ufPseudo map[string]*T
 }
 
 func NewCtx() *Ctx {
@@ -1266,6 +1268,10 @@ func (c *Ctx) Vars(t *T) []*T {
 			set[x] = true
 			return
 		}
+		if x.Op == OUF {
+			// all constraints mentioning the same uninterpreted function are connected (congruence)
+			set[c.ufPseudoVar(x.Name)] = true
+		}
 		walk(x.A)
 		walk(x.B)
 		walk(x.C)
@@ -1372,6 +1378,11 @@ func (c *Ctx) eval(t *T, m *Model, memo map[*T]uint64) uint64 {
 			fmt.Fprintf(&sb, "|%d", ev(a))
 		}
 		r = m.UF[sb.String()] & maskb(t.W)
+		if _, ok := m.UF[sb.String()]; !ok {
+			// unconstrained application: pick a default that is a function of the arguments
+			// (keeps congruence: equal arguments give equal results)
+			r = 0
+		}
 	case OFAdd, OFSub, OFMul, OFDiv:
 		r = c.FBin(t.Op, c.Const(ev(t.A), t.A.W), c.Const(ev(t.B), t.B.W)).K
 	case OFLt, OFLe, OFEq:
@@ -1604,4 +1615,26 @@ func (t *T) str(sb *strings.Builder, d int) {
 		}
 		sb.WriteString(")")
 	}
+}
+
+// ufKey is the model key of a UF application under m.
+func (c *Ctx) ufKey(u *T, m *Model) string {
+	var sb strings.Builder
+	sb.WriteString(u.Name)
+	for _, a := range u.Args {
+		fmt.Fprintf(&sb, "|%d", c.Eval(a, m))
+	}
+	return sb.String()
+}
+
+func (c *Ctx) ufPseudoVar(name string) *T {
+	if c.ufPseudo == nil {
+		c.ufPseudo = map[string]*T{}
+	}
+	if v, ok := c.ufPseudo[name]; ok {
+		return v
+	}
+	v := c.mk(tkey{op: OVar, w: 0, name: "uf$" + name}, nil, nil, nil, nil)
+	c.ufPseudo[name] = v
+	return v
 }
